@@ -6,8 +6,8 @@
 //! per case. When the child dies or stays silent longer than `limit`, the case after the last
 //! reported one gets `{"death": "..."}` and a new child continues behind it.
 //!
-//! Child: every case runs on a fresh thread with an 8 MiB stack; panics are caught per call
-//! (`guarded`) and their message and location recorded.
+//! Child: all its cases run one after the other on ONE thread with an 8 MiB stack (per-thread state of the code
+//! under test lives on from case to case); panics are caught per call (`guarded`), message and location recorded.
 
 use serde_json::{json, Value as J};
 use std::io::{BufRead, BufReader, Write};
@@ -51,20 +51,30 @@ pub fn child_main(args: &[String], handler: fn(&J) -> J) -> ! {
     Ok(f) => f,
     Err(_) => std::process::exit(3),
   };
-  let out = std::io::stdout();
-  for (k, line) in BufReader::new(file).lines().map_while(Result::ok).enumerate() {
-    if k < skip || line.trim().is_empty() {
-      continue;
+  // ONE thread (8 MiB stack, the default of a main thread) handles all the cases of this child, one after the other: what
+  // the code under test keeps per thread (caches, counters, a decimal context) lives on from case to case, as it does on
+  // the worker threads of a service. A panic outside the guarded calls ends the thread and with it the child; the parent
+  // attributes the death to the case after the last reported one and starts a new child behind it.
+  let worker = std::thread::Builder::new().stack_size(8 << 20).spawn(move || {
+    let out = std::io::stdout();
+    for (k, line) in BufReader::new(file).lines().map_while(Result::ok).enumerate() {
+      if k < skip || line.trim().is_empty() {
+        continue;
+      }
+      let c: J = serde_json::from_str(&line).unwrap_or(J::Null);
+      let r = handler(&c);
+      let mut o = out.lock();
+      let _ = writeln!(o, "R {} {}", base + k, r);
+      let _ = o.flush();
     }
-    let c: J = serde_json::from_str(&line).unwrap_or(J::Null);
-    let h = std::thread::Builder::new().stack_size(8 << 20).spawn(move || handler(&c));
-    let r = match h {
-      Ok(h) => h.join().unwrap_or_else(|_| json!({"death": "panic outside the guarded calls"})),
-      Err(_) => json!({"death": "cannot spawn"}),
-    };
-    let mut o = out.lock();
-    let _ = writeln!(o, "R {} {}", base + k, r);
-    let _ = o.flush();
+  });
+  match worker {
+    Ok(h) => {
+      if h.join().is_err() {
+        std::process::exit(101);
+      }
+    }
+    Err(_) => std::process::exit(3),
   }
   std::process::exit(0)
 }
